@@ -355,3 +355,43 @@ Lemma ex_npd_outcomes :
 Proof. split; [eexists; vm_compute; repeat split; reflexivity | vm_compute; reflexivity]. Qed.
 Lemma npd_einval_reachable : exists b, NpdLoad.load_npd b = NpdLoad.NError NpdLoad.NEINVAL.
 Proof. exists ex_npd_bogus. vm_compute. reflexivity. Qed.
+
+(* '#:parameters' with spaces or commas *)
+Local Open Scope string_scope.
+Definition ex_npd_params_spaces : list N := file_of
+  ["#:ports 1"; "#:frequencies 1"; "#:parameters Sri  Zma"; "1e9 0.5 0.25 50 0"].
+Definition ex_npd_params_commas : list N := file_of
+  ["#:ports 1"; "#:frequencies 1"; "#:parameters Sri,Zma"; "1e9 0.5 0.25 50 0"].
+Local Close Scope string_scope.
+Lemma ex_npd_params :
+  NpdLoad.npd_lines ex_npd_params_spaces <> NpdLoad.npd_lines ex_npd_params_commas /\
+  map NpdLoad.record_of (NpdLoad.npd_lines ex_npd_params_spaces) = map NpdLoad.record_of (NpdLoad.npd_lines ex_npd_params_commas) /\
+  NpdLoad.load_npd ex_npd_params_spaces = NpdLoad.load_npd ex_npd_params_commas /\
+  (exists o, NpdLoad.load_npd ex_npd_params_spaces = NpdLoad.NOk o).
+Proof. split; [vm_compute; discriminate |]. split; [vm_compute; reflexivity |]. split; [vm_compute; reflexivity |]. eexists. vm_compute. reflexivity. Qed.
+
+(* the plain spelling of TsRender.v for the examples *)
+Require Import LV.Files.TsRender.
+Ltac texts_steps :=
+  repeat match goal with
+         | |- _ /\ _ => split
+         | |- Forall _ (snd _) => cbn [snd]
+         | |- Forall _ [] => constructor
+         | |- Forall _ (_ :: _) => constructor
+         | |- True => exact I
+         | |- ofield_text_ok _ => cbn [ofield_text_ok]
+         | |- num_text_ok _ => vm_compute; repeat split; reflexivity
+         | |- text_ok _ => vm_compute; repeat split; reflexivity
+         end.
+Lemma ex_texts_ok : v2_texts_ok ex2_upper /\ v1_texts_ok ex1_two /\ v1_texts_ok ex1_four.
+Proof.
+  split; [| split].
+  - unfold v2_texts_ok. cbn [ex2_upper f_opts f_ports f_nfreq f_ref f_records]. texts_steps.
+  - unfold v1_texts_ok. cbn [ex1_two g_opts g_records g_noise]. texts_steps.
+  - unfold v1_texts_ok. cbn [ex1_four g_opts g_records g_noise]. texts_steps.
+Qed.
+(* the rendering has a blank after every token, the example bytes do not: different bytes, the same tokens *)
+Lemma ex_render_same_tokens :
+  render_stream (v2_body ex2_upper) <> ex2_upper_bytes /\ tokens (render_stream (v2_body ex2_upper)) = tokens ex2_upper_bytes /\
+  tokens (render_stream (v1_body ex1_four)) = tokens ex1_four_bytes.
+Proof. split; [vm_compute; discriminate |]. split; vm_compute; reflexivity. Qed.
